@@ -49,6 +49,10 @@ def _is_path(e):
     return isinstance(e, ast.Name)
 
 
+_OPERATOR_FUNCS = {"operator.add": ast.Add, "operator.mul": ast.Mult, "operator.or_": ast.BitOr, "operator.and_": ast.BitAnd, "operator.sub": ast.Sub,
+                   "np.add": ast.Add, "np.multiply": ast.Mult, "np.logical_or": ast.BitOr}
+
+
 class Fold(ast.NodeTransformer):
     def __init__(self, repo=None, f=None):
         self.changed = False
@@ -147,6 +151,25 @@ class Fold(ast.NodeTransformer):
     def visit_Call(self, n):
         self.generic_visit(n)
         n.args = self._flatten_starred(n.args)
+        # functools.reduce(operator.add, <display or comprehension over a display of at most four items>[, init])  written inside an expression:
+        # the left fold spelled out  ((init + e1) + e2) ..   (operator.add / mul / or_ / and_ / sub are the binary operators themselves)
+        if U(n.func) in ("functools.reduce", "reduce") and 2 <= len(n.args) <= 3 and not n.keywords and U(n.args[0]) in _OPERATOR_FUNCS:
+            it_ = n.args[1]
+            items = None
+            if isinstance(it_, (ast.Tuple, ast.List)) and 1 <= len(it_.elts) <= 4 and not any(isinstance(x, ast.Starred) for x in it_.elts):
+                items = list(it_.elts)
+            elif isinstance(it_, (ast.GeneratorExp, ast.ListComp)) and len(it_.generators) == 1 and not it_.generators[0].ifs and isinstance(it_.generators[0].target, ast.Name) \
+                    and isinstance(it_.generators[0].iter, (ast.Tuple, ast.List)) and 1 <= len(it_.generators[0].iter.elts) <= 4 \
+                    and all(isinstance(x, ast.Name) for x in it_.generators[0].iter.elts):
+                x_ = it_.generators[0].target.id
+                items = [_Sub({x_: r_}, {}).visit(copy.deepcopy(it_.elt)) for r_ in it_.generators[0].iter.elts]
+            if items is not None and (len(n.args) == 3 or len(items) >= 1):
+                acc = n.args[2] if len(n.args) == 3 else items.pop(0)
+                op_ = _OPERATOR_FUNCS[U(n.args[0])]
+                for e_ in items:
+                    acc = ast.BinOp(left=acc, op=op_(), right=e_)
+                self.changed = True
+                return ast.copy_location(acc, n)
         # K(a=x, b=y).m()  with K a plain record and m a method without parameters whose body is one `return E` over self.<field>s
         # ->  E with the fields read from the construction (cheap arguments: names, paths, slices of them)
         if self.repo is not None and isinstance(n.func, ast.Attribute) and not n.args and not n.keywords and isinstance(n.func.value, ast.Call) \
@@ -787,6 +810,37 @@ class Fold(ast.NodeTransformer):
             if v is not None and all(_cheap(a) or _const(a) for a in list(n.value.args) + [k.value for k in n.value.keywords]):
                 self.changed = True
                 return copy.deepcopy(v)
+        # K(a, b, c).field / K(a, b, c).prop  on a construction written in place, K a plain record, the arguments names / paths / element reads:
+        # the field's argument, or the one-expression @property body over the fields (the construction has no other use)
+        if self.repo is not None and isinstance(n.ctx, ast.Load) and isinstance(n.value, ast.Call) and isinstance(n.value.func, ast.Name) \
+                and not any(isinstance(a_, ast.Starred) for a_ in n.value.args) and all(k_.arg is not None for k_ in n.value.keywords):
+            from .normalize import record_fields, record_value
+            rec = n.value
+            fl = record_fields(self.repo, self.f.mod, rec.func.id, allow_methods=True)
+            if fl and all(_cheap(a_) or _const(a_) for a_ in list(rec.args) + [k_.value for k_ in rec.keywords]):
+                if n.attr in fl:
+                    v_ = record_value(self.repo, self.f.mod, rec, n.attr)
+                    if v_ is not None:
+                        self.changed = True
+                        return copy.deepcopy(v_)
+                cq_ = self.repo.chase(self.f.mod, rec.func.id)
+                m_ = self.repo.funcs.get(f"{cq_}.{n.attr}") if cq_ else None
+                if m_ is not None and m_.is_property and m_.params == ["self"]:
+                    body_ = [st for st in m_.node.body if not (isinstance(st, ast.Expr) and isinstance(st.value, ast.Constant))]
+                    if len(body_) == 1 and isinstance(body_[0], ast.Return) and body_[0].value is not None:
+                        e_ = copy.deepcopy(body_[0].value)
+                        selfs = [x for x in ast.walk(e_) if isinstance(x, ast.Name) and x.id == "self"]
+                        attrs = [x for x in ast.walk(e_) if isinstance(x, ast.Attribute) and isinstance(x.value, ast.Name) and x.value.id == "self"]
+                        vals_ = {a_.attr: record_value(self.repo, self.f.mod, rec, a_.attr) for a_ in attrs}
+                        if len(selfs) == len(attrs) and attrs and all(v_ is not None for v_ in vals_.values()) \
+                                and not any(isinstance(x, (ast.Call, ast.Lambda, ast.Yield, ast.Await)) for x in ast.walk(e_)):
+                            class _S2(ast.NodeTransformer):
+                                def visit_Attribute(self, a_):
+                                    if isinstance(a_.value, ast.Name) and a_.value.id == "self" and a_.attr in vals_:
+                                        return copy.deepcopy(vals_[a_.attr])
+                                    return self.generic_visit(a_)
+                            self.changed = True
+                            return ast.copy_location(_S2().visit(e_), n)
         # NAME.field  with NAME a module-level constant bound to a record construction of constants (a table entry with a name of its own)
         if self.repo is not None and isinstance(n.ctx, ast.Load) and isinstance(n.value, ast.Name):
             local_names = getattr(self, "_locals", None)
